@@ -179,10 +179,13 @@ Definition compile_switch_r (nm : names) (c : cfg) (x : score) (entries : list e
   | _ => Err ESyntax
   end.
 
+(* HardcodeSwitch.call: `count < begin_at` is refused (JMCValueError "the switch would have no case", /repo bbd8943),
+   under either strategy, before anything is allocated *)
 Definition compile_hardcode_r (nm : names) (c : cfg) (x : score) (body : Z -> list cmd)
            (begin_at count : Z) (pc sid : Z) : result (list cmd * list func * Z * Z) :=
-  parse_switch_r nm c HARDCODE_SWITCH_NAME x
-                 (map (fun i => (LNum i, body i)) (hardcode_labels begin_at count)) begin_at true pc sid.
+  if count <? begin_at then Err EValueError
+  else parse_switch_r nm c HARDCODE_SWITCH_NAME x
+                      (map (fun i => (LNum i, body i)) (hardcode_labels begin_at count)) begin_at true pc sid.
 
 (* two lowerings that do NOT work, for the refutations in Props/C06.v:
    - the one of the tree before the patch is Model.Switch.parse_switch_macro (flag line appended to the body);
